@@ -1,6 +1,8 @@
 import Propka.Props.C16
 import Propka.Model.Iterative
 import Propka.Proofs.Componentwise
+import Propka.Proofs.Scoring
+import Propka.Proofs.Rotation
 import Mathlib.Algebra.Order.Field.Rat
 /-! # C05 — parts of a structure beyond interaction range do not influence each other
 
@@ -254,3 +256,446 @@ example : ∀ it ∈ iAB, (fun i => decide (i < 4)) it.g1 = (fun i => decide (i 
 theorem iter_leak_counterexample : total (5/1000) gA iA 0 ≠ total (5/1000) gAB iAB 0 := by decide +kernel
 
 end Propka.Iter
+
+/-! ## the whole scoring phase (`Model/Scoring.lean`): every term that couples two parts vanishes beyond range -/
+namespace Propka.Scoring
+open Propka.Energy
+
+/-- the closest pair of two atom lists is no closer than every pair is -/
+theorem smallest_ge (sq : Nat → Nat → ℝ) (R2 : ℝ) (as bs : List Nat) (h : ∀ a ∈ as, ∀ b ∈ bs, R2 ≤ sq a b)
+    (r : Best ℝ) (hr : smallest sq as bs = some r) : R2 ≤ r.d := by
+  unfold smallest at hr
+  have inner : ∀ (a : Nat) (ha : ∀ b ∈ bs, R2 ≤ sq a b) (l : List Nat) (hl : ∀ b ∈ l, b ∈ bs) (acc : Option (Best ℝ)),
+      (∀ x, acc = some x → R2 ≤ x.d) → ∀ x, l.foldl (bestStep sq a) acc = some x → R2 ≤ x.d := by
+    intro a ha l
+    induction l with
+    | nil => intro _ acc hacc x hx; exact hacc x hx
+    | cons b bs' ih =>
+      intro hl acc hacc x hx
+      simp only [List.foldl_cons] at hx
+      refine ih (fun b' hb' => hl b' (List.mem_cons_of_mem _ hb')) _ ?_ x hx
+      intro y hy
+      have hb := ha b (hl b (by simp))
+      unfold bestStep at hy
+      cases acc with
+      | none => simp only [Option.some.injEq] at hy; rw [← hy]; exact hb
+      | some r0 =>
+        simp only at hy
+        split at hy
+        · simp only [Option.some.injEq] at hy; rw [← hy]; exact hb
+        · simp only [Option.some.injEq] at hy; rw [← hy]; exact hacc r0 rfl
+  have outer : ∀ (l : List Nat) (hl : ∀ a ∈ l, a ∈ as) (acc : Option (Best ℝ)), (∀ x, acc = some x → R2 ≤ x.d) →
+      ∀ x, l.foldl (fun best a => bs.foldl (bestStep sq a) best) acc = some x → R2 ≤ x.d := by
+    intro l
+    induction l with
+    | nil => intro _ acc hacc x hx; exact hacc x hx
+    | cons a as' ih =>
+      intro hl acc hacc x hx
+      simp only [List.foldl_cons] at hx
+      refine ih (fun a' ha' => hl a' (List.mem_cons_of_mem _ ha')) _ ?_ x hx
+      intro y hy
+      exact inner a (h a (hl a (by simp))) bs (fun b hb => hb) acc hacc y hy
+  exact outer as (fun a ha => ha) none (by simp) r hr
+
+/-- **No backbone hydrogen bond between parts beyond range**: if every interaction atom of the backbone group is at least
+    `R` from every interaction atom of the titratable group, and no outer cut-off of the backbone tables exceeds `R`, the pair
+    gets no determinant. -/
+theorem bbDet_far (p : SP ℝ) (env : Env ℝ) (atoms : Tab AtomT) (groups : Tab (GroupT ℝ)) (t b : Nat) (R : ℝ) (hR : 0 ≤ R)
+    (hfar : ∀ x ∈ interAtoms p (gget groups b) (gget groups t), ∀ y ∈ (gget groups t).iaAcid, R * R ≤ env.sqAA x y)
+    (hNH : ∀ ty r, p.bbNH ty = some r → r.2.2 ≤ R) (hCO : ∀ ty r, p.bbCO ty = some r → r.2.2 ≤ R) :
+    bbDet p env atoms groups t b = none := by
+  unfold bbDet
+  simp only
+  split
+  · rfl
+  · split
+    · rfl
+    · split
+      · rfl
+      · rename_i r hr
+        have hd := smallest_ge env.sqAA (R * R) _ _ hfar r hr
+        have hs : R ≤ Real.sqrt r.d := by
+          rw [show R = Real.sqrt (R * R) from (Real.sqrt_mul_self hR).symm]
+          exact Real.sqrt_le_sqrt hd
+        unfold bbValue
+        simp only [Trig.sqrt]
+        split
+        · rfl
+        · rename_i prm hprm
+          have hc : prm.2.2 ≤ R := by
+            unfold bbParams at hprm
+            split at hprm
+            · exact hCO _ _ hprm
+            · split at hprm
+              · exact hNH _ _ hprm
+              · exact absurd hprm (by simp)
+          have : ¬ Real.sqrt r.d < prm.2.2 := not_lt.mpr (le_trans hc hs)
+          simp [this]
+
+/-- no ion determinant beyond the Coulomb cut-off -/
+theorem ionDet_far (p : SP ℝ) (env : Env ℝ) (groups : Tab (GroupT ℝ)) (nv : Nat → Nat) (t i : Nat) (h : p.cc2sq ≤ env.sqGG t i) :
+    ionDet p env groups nv t i = none := by
+  unfold ionDet; simp [not_lt.mpr h]
+
+/-- **A pair of groups whose centres are at or beyond the Coulomb cut-off is skipped by the pair loop**: no non-iterative
+    determinant, no entry in the iterative list. -/
+theorem pairStep_far (p : SP ℝ) (env : Env ℝ) (atoms : Tab AtomT) (groups : Tab (GroupT ℝ)) (nv : Nat → ℝ) (ab : Nat × Nat)
+    (h : p.ep.cc2 ≤ Real.sqrt (env.sqGG ab.1 ab.2)) :
+    (pairStep p env atoms groups nv ab).ems = [] ∧ (pairStep p env atoms groups nv ab).inter = none := by
+  unfold pairStep
+  simp only [Trig.sqrt, not_lt.mpr h, if_false, and_self]
+
+/-- far atoms leave the desolvation loop where it is: appending atoms at or beyond both cut-offs changes neither the
+    accumulated volume nor the buried count -/
+theorem desolvLoop_append_far (p : EP ℝ) (c1 c2 : ℝ) (near far : List (ℝ × ℝ)) (h : ∀ a ∈ far, c1 ≤ a.2 ∧ c2 ≤ a.2) :
+    desolvLoop p c1 c2 (near ++ far) = desolvLoop p c1 c2 near := by
+  rw [desolvation_skips_far_atoms p c1 c2 (near ++ far), desolvation_skips_far_atoms p c1 c2 near, List.filter_append]
+  have : far.filter (fun a => decide (a.2 < c1) || decide (a.2 < c2)) = [] := by
+    rw [List.filter_eq_nil_iff]
+    intro a ha
+    obtain ⟨h1, h2⟩ := h a ha
+    simp [not_lt.mpr h1, not_lt.mpr h2]
+  rw [this, List.append_nil]
+
+/-- backbone C=O groups at or beyond the reorganisation distance add nothing to the local desolvation term -/
+theorem energyLocal_append_far (p : EP ℝ) (near far : List (ℝ × ℝ)) (w : ℝ) (h : ∀ t ∈ far, p.bbd1 ≤ t.1) :
+    energyLocal p (near ++ far) w = energyLocal p near w := by
+  unfold energyLocal
+  rw [List.foldl_append]
+  congr 1
+  generalize near.foldl (fun acc t => acc + reorgTerm p t.1 t.2) ((0:ℕ):ℝ) = acc
+  induction far generalizing acc with
+  | nil => rfl
+  | cons t ts ih =>
+    simp only [List.foldl_cons]
+    rw [reorg_zero_beyond p t.1 t.2 (h t (by simp)), add_zero]
+    exact ih (fun t' ht' => h t' (List.mem_cons_of_mem _ ht')) acc
+
+/-! ### a system extended by a part beyond range -/
+
+/-- the second system extends the first by atoms and groups that are beyond range `R` of everything in the first: the
+    tables agree on the old indices, the old part is closed (its interaction atoms, bonds and covalent couplings stay inside
+    it), the environments agree on the old indices, and everything new is at least `R` from everything old -/
+structure FarExtension (p : SP ℝ) (env env' : Env ℝ) (atoms atoms' : Tab AtomT) (groups groups' : Tab (GroupT ℝ)) (R : ℝ) : Prop where
+  rpos : 0 ≤ R
+  na : atoms.n ≤ atoms'.n
+  ng : groups.n ≤ groups'.n
+  atomsEq : ∀ i, i < atoms.n → atoms'.get i = atoms.get i
+  groupsEq : ∀ g, g < groups.n → groups'.get g = groups.get g
+  iaAcidIn : ∀ g, g < groups.n → ∀ a ∈ (groups.get g).iaAcid, a < atoms.n
+  iaBaseIn : ∀ g, g < groups.n → ∀ a ∈ (groups.get g).iaBase, a < atoms.n
+  atomIn : ∀ g, g < groups.n → (groups.get g).atom < atoms.n
+  bondedIn : ∀ a, a < atoms.n → ∀ b ∈ (atoms.get a).bonded, b < atoms.n
+  newIaAcid : ∀ h, groups.n ≤ h → ∀ a ∈ (groups'.get h).iaAcid, atoms.n ≤ a
+  newIaBase : ∀ h, groups.n ≤ h → ∀ a ∈ (groups'.get h).iaBase, atoms.n ≤ a
+  envAA : ∀ i j, i < atoms.n → j < atoms.n → env'.sqAA i j = env.sqAA i j
+  envGA : ∀ g a, g < groups.n → a < atoms.n → env'.sqGA g a = env.sqGA g a
+  envGG : ∀ g h, g < groups.n → h < groups.n → env'.sqGG g h = env.sqGG g h
+  envAngA : ∀ a b c, a < atoms.n → b < atoms.n → c < atoms.n → env'.angA a b c = env.angA a b c
+  envAngC : ∀ g b c, g < groups.n → b < atoms.n → c < atoms.n → env'.angC g b c = env.angC g b c
+  envRes : ∀ g a, g < groups.n → a < atoms.n → env'.sameRes g a = env.sameRes g a
+  farGA : ∀ g a, g < groups.n → atoms.n ≤ a → R * R ≤ env'.sqGA g a
+  farAA : ∀ i j, i < atoms.n → atoms.n ≤ j → R * R ≤ env'.sqAA i j ∧ R * R ≤ env'.sqAA j i
+  farGG : ∀ g h, g < groups.n → groups.n ≤ h → R * R ≤ env'.sqGG g h ∧ R * R ≤ env'.sqGG h g
+  farC : ∀ g b c, g < groups.n → atoms.n ≤ b → R ≤ (env'.angC g b c).d12
+  desolvR : p.desolvCut2 ≤ R * R
+  buriedR : p.buriedCut2 ≤ R * R
+  ccR : p.cc2sq ≤ R * R
+  bbdR : p.ep.bbd1 ≤ R
+  nhR : ∀ ty r, p.bbNH ty = some r → r.2.2 ≤ R
+  coR : ∀ ty r, p.bbCO ty = some r → r.2.2 ≤ R
+  newBBC : ∀ h, groups.n ≤ h → (groups'.get h).iaAcid ≠ [] ∧ (groups'.get h).iaBase ≠ []
+
+theorem range_split (m k : Nat) : List.range (m + k) = List.range m ++ (List.range k).map (m + ·) := List.range_add
+
+/-- **Desolvation of a group does not see atoms beyond range**: volume and buried count of every old group are the same in
+    the extended system. -/
+theorem desolv_extend (p : SP ℝ) (env env' : Env ℝ) (atoms atoms' : Tab AtomT) (groups groups' : Tab (GroupT ℝ)) (R : ℝ)
+    (h : FarExtension p env env' atoms atoms' groups groups' R) (g : Nat) (hg : g < groups.n) :
+    desolv p env' atoms' g = desolv p env atoms g := by
+  unfold desolv desolvInput heavy
+  obtain ⟨k, hk⟩ := Nat.exists_eq_add_of_le h.na
+  rw [hk, range_split, List.filter_append, List.filter_append, List.map_append]
+  have hold : (List.map (fun a => (dvol p (aget atoms' a), env'.sqGA g a))
+        (List.filter (fun a => !env'.sameRes g a) (List.filter (fun i => (aget atoms' i).elem != "H") (List.range atoms.n))))
+      = List.map (fun a => (dvol p (aget atoms a), env.sqGA g a))
+        (List.filter (fun a => !env.sameRes g a) (List.filter (fun i => (aget atoms i).elem != "H") (List.range atoms.n))) := by
+    have e1 : List.filter (fun i => (aget atoms' i).elem != "H") (List.range atoms.n) = List.filter (fun i => (aget atoms i).elem != "H") (List.range atoms.n) := by
+      apply List.filter_congr
+      intro i hi
+      simp only [aget, h.atomsEq i (List.mem_range.mp hi)]
+    rw [e1]
+    have e2 : List.filter (fun a => !env'.sameRes g a) (List.filter (fun i => (aget atoms i).elem != "H") (List.range atoms.n))
+        = List.filter (fun a => !env.sameRes g a) (List.filter (fun i => (aget atoms i).elem != "H") (List.range atoms.n)) := by
+      apply List.filter_congr
+      intro a ha
+      rw [h.envRes g a hg (List.mem_range.mp (List.mem_filter.mp ha).1)]
+    rw [e2]
+    apply List.map_congr_left
+    intro a ha
+    have hlt : a < atoms.n := List.mem_range.mp (List.mem_filter.mp (List.mem_filter.mp ha).1).1
+    simp only [aget, h.atomsEq a hlt, h.envGA g a hg hlt]
+  rw [hold]
+  apply desolvLoop_append_far
+  intro x hx
+  obtain ⟨a, ha, rfl⟩ := List.mem_map.mp hx
+  have hge : atoms.n ≤ a := by
+    obtain ⟨j, _, rfl⟩ := List.mem_map.mp (List.mem_filter.mp (List.mem_filter.mp ha).1).1
+    exact Nat.le_add_right _ _
+  exact ⟨le_trans h.desolvR (h.farGA g a hg hge), le_trans h.buriedR (h.farGA g a hg hge)⟩
+
+
+theorem smallest_congr (sq sq' : Nat → Nat → ℝ) (as bs : List Nat) (h : ∀ a ∈ as, ∀ b ∈ bs, sq' a b = sq a b) :
+    smallest sq' as bs = smallest sq as bs := by
+  unfold smallest
+  have inner : ∀ (a : Nat), (∀ b ∈ bs, sq' a b = sq a b) → ∀ (l : List Nat), (∀ b ∈ l, b ∈ bs) → ∀ acc,
+      l.foldl (bestStep sq' a) acc = l.foldl (bestStep sq a) acc := by
+    intro a ha l
+    induction l with
+    | nil => intro _ _; rfl
+    | cons b l ih =>
+      intro hl acc
+      simp only [List.foldl_cons]
+      have : bestStep sq' a acc b = bestStep sq a acc b := by unfold bestStep; rw [ha b (hl b (by simp))]
+      rw [this]
+      exact ih (fun b' hb' => hl b' (List.mem_cons_of_mem _ hb')) _
+  have outer : ∀ (l : List Nat), (∀ a ∈ l, a ∈ as) → ∀ acc,
+      l.foldl (fun best a => bs.foldl (bestStep sq' a) best) acc = l.foldl (fun best a => bs.foldl (bestStep sq a) best) acc := by
+    intro l
+    induction l with
+    | nil => intro _ _; rfl
+    | cons a l ih =>
+      intro hl acc
+      simp only [List.foldl_cons]
+      rw [inner a (h a (hl a (by simp))) bs (fun b hb => hb)]
+      exact ih (fun a' ha' => hl a' (List.mem_cons_of_mem _ ha')) _
+  exact outer as (fun a ha => ha) none
+
+/-- the closest pair consists of an atom of each list -/
+theorem smallest_mem (sq : Nat → Nat → ℝ) (as bs : List Nat) (r : Best ℝ) (hr : smallest sq as bs = some r) : r.a ∈ as ∧ r.b ∈ bs := by
+  unfold smallest at hr
+  have inner : ∀ (a : Nat), a ∈ as → ∀ (l : List Nat), (∀ b ∈ l, b ∈ bs) → ∀ acc, (∀ x, acc = some x → x.a ∈ as ∧ x.b ∈ bs) →
+      ∀ x, l.foldl (bestStep sq a) acc = some x → x.a ∈ as ∧ x.b ∈ bs := by
+    intro a ha l
+    induction l with
+    | nil => intro _ acc hacc x hx; exact hacc x hx
+    | cons b l ih =>
+      intro hl acc hacc x hx
+      simp only [List.foldl_cons] at hx
+      refine ih (fun b' hb' => hl b' (List.mem_cons_of_mem _ hb')) _ ?_ x hx
+      intro y hy
+      unfold bestStep at hy
+      cases acc with
+      | none => simp only [Option.some.injEq] at hy; rw [← hy]; exact ⟨ha, hl b (by simp)⟩
+      | some r0 =>
+        simp only at hy
+        split at hy
+        · simp only [Option.some.injEq] at hy; rw [← hy]; exact ⟨ha, hl b (by simp)⟩
+        · simp only [Option.some.injEq] at hy; rw [← hy]; exact hacc r0 rfl
+  have outer : ∀ (l : List Nat), (∀ a ∈ l, a ∈ as) → ∀ acc, (∀ x, acc = some x → x.a ∈ as ∧ x.b ∈ bs) →
+      ∀ x, l.foldl (fun best a => bs.foldl (bestStep sq a) best) acc = some x → x.a ∈ as ∧ x.b ∈ bs := by
+    intro l
+    induction l with
+    | nil => intro _ acc hacc x hx; exact hacc x hx
+    | cons a l ih =>
+      intro hl acc hacc x hx
+      simp only [List.foldl_cons] at hx
+      refine ih (fun a' ha' => hl a' (List.mem_cons_of_mem _ ha')) _ ?_ x hx
+      intro y hy
+      exact inner a (hl a (by simp)) bs (fun b hb => hb) acc hacc y hy
+  exact outer as (fun a ha => ha) none (by simp) r hr
+
+section
+variable {p : SP ℝ} {env env' : Env ℝ} {atoms atoms' : Tab AtomT} {groups groups' : Tab (GroupT ℝ)} {R : ℝ}
+
+theorem FarExtension.gget_eq (h : FarExtension p env env' atoms atoms' groups groups' R) (g : Nat) (hg : g < groups.n) :
+    gget groups' g = gget groups g := h.groupsEq g hg
+theorem FarExtension.aget_eq (h : FarExtension p env env' atoms atoms' groups groups' R) (a : Nat) (ha : a < atoms.n) :
+    aget atoms' a = aget atoms a := h.atomsEq a ha
+
+theorem FarExtension.interAtoms_in (h : FarExtension p env env' atoms atoms' groups groups' R) (g : Nat) (hg : g < groups.n) (o : GroupT ℝ) :
+    ∀ a ∈ interAtoms p (gget groups g) o, a < atoms.n := by
+  intro a ha
+  unfold interAtoms at ha
+  split at ha
+  · exact h.iaBaseIn g hg a ha
+  · exact h.iaAcidIn g hg a ha
+
+theorem FarExtension.interAtoms_new (h : FarExtension p env env' atoms atoms' groups groups' R) (b : Nat) (hb : groups.n ≤ b) (o : GroupT ℝ) :
+    ∀ a ∈ interAtoms p (gget groups' b) o, atoms.n ≤ a := by
+  intro a ha
+  unfold interAtoms at ha
+  split at ha
+  · exact h.newIaBase b hb a ha
+  · exact h.newIaAcid b hb a ha
+
+theorem FarExtension.bond0_in (h : FarExtension p env env' atoms atoms' groups groups' R) (a : Nat) (ha : a < atoms.n) :
+    bond0 atoms' a = bond0 atoms a ∧ bond0 atoms a < atoms.n := by
+  unfold bond0
+  rw [h.aget_eq a ha]
+  refine ⟨rfl, ?_⟩
+  cases hb : (aget atoms a).bonded with
+  | nil => exact ha
+  | cons x xs => exact h.bondedIn a ha x (by unfold aget at hb; rw [hb]; simp)
+
+/-- a backbone hydrogen bond inside the old part is computed from the old part alone -/
+theorem bbDet_extend (h : FarExtension p env env' atoms atoms' groups groups' R) (t b : Nat) (ht : t < groups.n) (hb : b < groups.n) :
+    bbDet p env' atoms' groups' t b = bbDet p env atoms groups t b := by
+  unfold bbDet
+  simp only
+  rw [h.gget_eq t ht, h.gget_eq b hb]
+  have hsm := smallest_congr env.sqAA env'.sqAA (interAtoms p (gget groups b) (gget groups t)) (gget groups t).iaAcid
+    (fun x hx y hy => h.envAA x y (h.interAtoms_in b hb _ x hx) (h.iaAcidIn t ht y hy))
+  rw [hsm]
+  split
+  · rfl
+  · split
+    · rfl
+    · split
+      · rfl
+      · rename_i r hr
+        obtain ⟨ha, hbb⟩ := smallest_mem _ _ _ r hr
+        have hra := h.interAtoms_in b hb _ r.a ha
+        have hrb := h.iaAcidIn t ht r.b hbb
+        congr 1
+        unfold bbValue bbAngle
+        simp only
+        rw [h.aget_eq r.a hra, h.aget_eq r.b hrb, (h.bond0_in r.a hra).1, (h.bond0_in r.b hrb).1,
+          h.envAngA _ _ _ (h.bond0_in r.b hrb).2 hrb hra, h.envAngA _ _ _ hrb hra (h.bond0_in r.a hra).2]
+
+theorem filter_range_extend {β : Type} (m k : Nat) (f f' : Nat → Bool) (hf : ∀ i, i < m → f' i = f i) :
+    (List.range (m + k)).filter f' = (List.range m).filter f ++ ((List.range k).map (m + ·)).filter f' := by
+  rw [List.range_add, List.filter_append]
+  congr 1
+  apply List.filter_congr
+  intro i hi
+  exact hf i (List.mem_range.mp hi)
+
+/-- **The backbone determinants of an old group are the same in the extended system.** -/
+theorem bbDets_extend (h : FarExtension p env env' atoms atoms' groups groups' R) (t : Nat) (ht : t < groups.n) :
+    bbDets p env' atoms' groups' t = bbDets p env atoms groups t := by
+  unfold bbDets
+  rw [h.gget_eq t ht]
+  split
+  · unfold bbGroups
+    obtain ⟨k, hk⟩ := Nat.exists_eq_add_of_le h.ng
+    rw [hk, filter_range_extend (β := Nat) groups.n k (fun i => hasBB (gget groups i).type) (fun i => hasBB (gget groups' i).type)
+      (fun i hi => by rw [h.gget_eq i hi]), List.filterMap_append]
+    have hnew : List.filterMap (bbDet p env' atoms' groups' t)
+        (List.filter (fun i => hasBB (gget groups' i).type) (List.map (fun x => groups.n + x) (List.range k))) = [] := by
+      rw [List.filterMap_eq_nil_iff]
+      intro b hb
+      have hge : groups.n ≤ b := by
+        obtain ⟨j, _, rfl⟩ := List.mem_map.mp (List.mem_filter.mp hb).1
+        exact Nat.le_add_right _ _
+      apply bbDet_far p env' atoms' groups' t b R h.rpos _ h.nhR h.coR
+      intro x hx y hy
+      rw [h.gget_eq t ht] at hy
+      exact (h.farAA y x (h.iaAcidIn t ht y hy) (h.interAtoms_new b hge _ x hx)).2
+    rw [hnew, List.append_nil]
+    apply List.filterMap_congr
+    intro b hb
+    exact bbDet_extend h t b ht (List.mem_range.mp (List.mem_filter.mp hb).1)
+  · rfl
+
+/-- **The ion determinants of an old group are the same in the extended system.** -/
+theorem ionDets_extend (h : FarExtension p env env' atoms atoms' groups groups' R) (nv nv' : Nat → Nat)
+    (hnv : ∀ g, g < groups.n → nv' g = nv g) (t : Nat) (ht : t < groups.n) :
+    ionDets p env' groups' nv' t = ionDets p env groups nv t := by
+  unfold ionDets
+  rw [h.gget_eq t ht]
+  split
+  · unfold ionGroups
+    obtain ⟨k, hk⟩ := Nat.exists_eq_add_of_le h.ng
+    rw [hk, filter_range_extend (β := Nat) groups.n k (fun i => p.ionRes (gget groups i).resType) (fun i => p.ionRes (gget groups' i).resType)
+      (fun i hi => by rw [h.gget_eq i hi]), List.filterMap_append]
+    have hnew : List.filterMap (ionDet p env' groups' nv' t)
+        (List.filter (fun i => p.ionRes (gget groups' i).resType) (List.map (fun x => groups.n + x) (List.range k))) = [] := by
+      rw [List.filterMap_eq_nil_iff]
+      intro b hb
+      have hge : groups.n ≤ b := by
+        obtain ⟨j, _, rfl⟩ := List.mem_map.mp (List.mem_filter.mp hb).1
+        exact Nat.le_add_right _ _
+      exact ionDet_far p env' groups' nv' t b (le_trans h.ccR (h.farGG t b ht hge).1)
+    rw [hnew, List.append_nil]
+    apply List.filterMap_congr
+    intro b hb
+    have hbl : b < groups.n := List.mem_range.mp (List.mem_filter.mp hb).1
+    unfold ionDet
+    rw [h.envGG t b ht hbl, h.gget_eq b hbl, hnv t ht, hnv b hbl]
+  · rfl
+
+theorem buriedOf_extend (h : FarExtension p env env' atoms atoms' groups groups' R) (nv nv' : Nat → Nat)
+    (hnv : ∀ g, g < groups.n → nv' g = nv g) (t : Nat) (ht : t < groups.n) :
+    buriedOf p groups' nv' t = buriedOf p groups nv t := by
+  unfold buriedOf; rw [h.gget_eq t ht, hnv t ht]
+
+/-- **The local desolvation term (backbone reorganisation) of an old group is the same in the extended system.** -/
+theorem elocOf_extend (h : FarExtension p env env' atoms atoms' groups groups' R) (nv nv' : Nat → Nat)
+    (hnv : ∀ g, g < groups.n → nv' g = nv g) (t : Nat) (ht : t < groups.n) :
+    elocOf p env' groups' nv' t = elocOf p env groups nv t := by
+  unfold elocOf
+  rw [h.gget_eq t ht, buriedOf_extend h nv nv' hnv t ht]
+  split
+  · unfold reorgInput bbcGroups
+    obtain ⟨k, hk⟩ := Nat.exists_eq_add_of_le h.ng
+    rw [hk, filter_range_extend (β := Nat) groups.n k (fun i => (gget groups i).type == "BBC") (fun i => (gget groups' i).type == "BBC")
+      (fun i hi => by rw [h.gget_eq i hi]), List.map_append]
+    refine Eq.trans (energyLocal_append_far _ _ _ _ ?_) ?_
+    · intro x hx
+      obtain ⟨b, hb, rfl⟩ := List.mem_map.mp hx
+      have hge : groups.n ≤ b := by
+        obtain ⟨j, _, rfl⟩ := List.mem_map.mp (List.mem_filter.mp hb).1
+        exact Nat.le_add_right _ _
+      simp only
+      refine le_trans h.bbdR (h.farC t _ _ ht ?_)
+      cases hl : interAtoms p (gget groups' b) (gget groups' t) with
+      | nil =>
+        exfalso
+        unfold interAtoms at hl
+        split at hl
+        · exact (h.newBBC b hge).2 hl
+        · exact (h.newBBC b hge).1 hl
+      | cons x xs => exact h.interAtoms_new b hge _ x (by rw [hl]; simp)
+    · congr 1
+      apply List.map_congr_left
+      intro b hb
+      have hbl : b < groups.n := List.mem_range.mp (List.mem_filter.mp hb).1
+      simp only
+      rw [h.gget_eq b hbl, h.gget_eq t ht]
+      have hat : (gget groups b).atom < atoms.n := h.atomIn b hbl
+      have hhd : (interAtoms p (gget groups b) (gget groups t)).headD 0 < atoms.n := by
+        cases hl : interAtoms p (gget groups b) (gget groups t) with
+        | nil => exact Nat.lt_of_le_of_lt (Nat.zero_le _) hat
+        | cons x xs => exact h.interAtoms_in b hbl _ x (by rw [hl]; simp)
+      rw [h.envAngC t _ _ ht hhd hat]
+  · rfl
+
+/-- **Everything the non-iterative single-group phases leave on an old group - buried count and fraction, both desolvation
+    terms, the backbone and the ion determinants - is the same in the extended system**: atoms and groups beyond range do not
+    influence them. -/
+theorem single_group_phases_extend (h : FarExtension p env env' atoms atoms' groups groups' R) (t : Nat) (ht : t < groups.n) :
+    desolvOf p env' atoms' groups' t = desolvOf p env atoms groups t ∧
+    bbDets p env' atoms' groups' t = bbDets p env atoms groups t ∧
+    ionDets p env' groups' (nvF (desTab p env' atoms' groups')) t = ionDets p env groups (nvF (desTab p env atoms groups)) t ∧
+    evolOf p groups' (volF (desTab p env' atoms' groups')) (nvF (desTab p env' atoms' groups')) t
+      = evolOf p groups (volF (desTab p env atoms groups)) (nvF (desTab p env atoms groups)) t ∧
+    elocOf p env' groups' (nvF (desTab p env' atoms' groups')) t = elocOf p env groups (nvF (desTab p env atoms groups)) t := by
+  have hdes : ∀ g, g < groups.n → desolvOf p env' atoms' groups' g = desolvOf p env atoms groups g := by
+    intro g hg
+    unfold desolvOf
+    rw [h.gget_eq g hg, desolv_extend p env env' atoms atoms' groups groups' R h g hg]
+  have htab : ∀ g, g < groups.n → tab (desTab p env' atoms' groups') (zero, 0) g = tab (desTab p env atoms groups) (zero, 0) g := by
+    intro g hg
+    unfold desTab
+    rw [tab_map_range _ _ _ _ hg, tab_map_range _ _ _ _ (Nat.lt_of_lt_of_le hg h.ng), hdes g hg]
+  have hnv : ∀ g, g < groups.n → nvF (desTab p env' atoms' groups') g = nvF (desTab p env atoms groups) g := by
+    intro g hg; unfold nvF; rw [htab g hg]
+  have hvol : volF (desTab p env' atoms' groups') t = volF (desTab p env atoms groups) t := by
+    unfold volF; rw [htab t ht]
+  refine ⟨hdes t ht, bbDets_extend h t ht, ionDets_extend h _ _ hnv t ht, ?_, elocOf_extend h _ _ hnv t ht⟩
+  unfold evolOf
+  rw [h.gget_eq t ht, hvol, buriedOf_extend h _ _ hnv t ht]
+end
+
+end Propka.Scoring
